@@ -1,6 +1,158 @@
-import ZoektModel.C35.Spec
+/-
+C35 — Shard merging reports success only when it merged, and never duplicates.  Property theorems; lemmas live in
+C35/{Lemmas,Vis,Inv,Steps,Remove,MergeProof,ExplodeProof}.lean.
+
+Statement (properties.jsonl): 'zoekt-merge-index merge' reports success only when a compound shard containing every
+input repository is in place and every input shard is gone, and 'explode' only when every repository is back in its own
+shard and the compound shard is gone.  If either fails or is killed at any point, no repository is ever visible in two
+shards at once.
+
+The theorems quantify over every initial directory, every input list, every fault oracle `flt : Nat → Bool` (which
+operations fail by injection — any subset, not only one) and, through "every recorded state", every kill point.
+-/
+import ZoektModel.C35.MergeProof
 namespace ZoektModel.C35
 
-theorem placeholder_c35 : True := trivial
+/-- what every recorded state must satisfy -/
+def Gd (d : Dir) : Prop := noDupVis d = true
+
+/-- merge: exit status 0 implies the post-condition -/
+def Qmerge (d0 : Dir) (names : List String) (e : Exit) (fin : Dir) : Prop :=
+  ∀ out, e = .ok out → mergePost d0 names out fin = true
+
+/-- the compound's name is new, or the name of one of the inputs (re-merging a compound shard) -/
+def DstFresh (d0 : Dir) (names : List String) (dst : String) : Prop :=
+  dst ∈ names ∨ (d0.get ⟨.shard, dst⟩ = none ∧ d0.get ⟨.sidecar, dst⟩ = none)
+
+theorem merge_final (d0 : Dir) (names : List String) (dst : String) (m : List Repo) (h0 : NoDupSem d0)
+    (hnames : names.Nodup) (hdst : DstFresh d0 names dst) (hm : mergedRepos d0 names = some m)
+    (d : Dir) (hK : K d0 d) (hgone : ∀ b ∈ names, d.get ⟨.shard, b⟩ = none ∧ d.get ⟨.sidecar, b⟩ = none) :
+    let fin := (d.del ⟨.tmp, dst⟩).put ⟨.shard, dst⟩ (.shard m)
+    Gd fin ∧ mergePost d0 names dst fin = true := by
+  intro fin
+  obtain ⟨i1, i2, i3, i4⟩ := mergedRepos_spec d0 h0 names m hnames hm
+  have gshard : ∀ b, fin.get ⟨.shard, b⟩ = if dst = b then some (.shard m) else d.get ⟨.shard, b⟩ := by
+    intro b
+    show ((d.del ⟨.tmp, dst⟩).put ⟨.shard, dst⟩ (.shard m)).get ⟨.shard, b⟩ = _
+    rw [get_put, get_del]
+    by_cases h : dst = b
+    · subst h; simp
+    · rw [if_neg (by intro h'; cases h'; exact h rfl), if_neg (by intro h'; cases h'), if_neg h]
+  have gside : ∀ b, fin.get ⟨.sidecar, b⟩ = d.get ⟨.sidecar, b⟩ := by
+    intro b
+    show ((d.del ⟨.tmp, dst⟩).put ⟨.shard, dst⟩ (.shard m)).get ⟨.sidecar, b⟩ = _
+    rw [get_put, get_del, if_neg (by intro h'; cases h'), if_neg (by intro h'; cases h')]
+  have sidedst : d.get ⟨.sidecar, dst⟩ = none := by
+    rcases hdst with h | h
+    · exact (hgone dst h).2
+    · cases hs : d.get ⟨.sidecar, dst⟩ with
+      | none => rfl
+      | some f => have := hK.side dst f hs; rw [h.2] at this; cases this
+  have effdst : effective fin dst m = m := by
+    unfold effective; rw [gside, sidedst]
+  have hwf : fin.wf = true := wf_put _ _ _ (wf_del _ _ hK.wf)
+  -- visibility in the final directory
+  have vis : ∀ b x, Visible fin b x → (b = dst ∧ x ∈ liveNames m) ∨ (b ≠ dst ∧ b ∉ names ∧ Visible d0 b x) := by
+    intro b x ⟨rs, g, hx⟩
+    rw [gshard] at g
+    by_cases h : dst = b
+    · subst h
+      rw [if_pos rfl] at g; cases g
+      rw [effdst] at hx
+      exact Or.inl ⟨rfl, hx⟩
+    · rw [if_neg h] at g
+      refine Or.inr ⟨fun h' => h h'.symm, ?_, ?_⟩
+      · intro hb; rw [(hgone b hb).1] at g; cases g
+      · apply K_visible hK
+        refine ⟨rs, g, ?_⟩
+        rwa [effective_congr fin d b rs (gside b)] at hx
+  have hsem : NoDupSem fin := by
+    constructor
+    · intro b1 b2 x v1 v2
+      rcases vis b1 x v1 with ⟨e1, m1⟩ | ⟨n1, nn1, w1⟩ <;> rcases vis b2 x v2 with ⟨e2, m2⟩ | ⟨n2, nn2, w2⟩
+      · rw [e1, e2]
+      · obtain ⟨b', hb', hv⟩ := i2 x m1
+        have := h0.1 b' b2 x hv w2
+        subst this; exact absurd hb' nn2
+      · obtain ⟨b', hb', hv⟩ := i2 x m2
+        have := h0.1 b' b1 x hv w1
+        subst this; exact absurd hb' nn1
+      · exact h0.1 b1 b2 x w1 w2
+    · intro b rs g
+      rw [gshard] at g
+      by_cases h : dst = b
+      · subst h
+        rw [if_pos rfl] at g; cases g
+        rw [effdst]; exact i3
+      · rw [if_neg h] at g
+        rw [effective_congr fin d b rs (gside b)]
+        exact (K_noDup h0 hK).2 b rs g
+  refine ⟨noDupVis_of_sem fin hwf hsem, ?_⟩
+  unfold mergePost
+  rw [gshard, if_pos rfl]
+  simp only [effdst, Bool.and_eq_true, List.all_eq_true, List.mem_flatMap, forall_exists_index, and_imp,
+    Bool.or_eq_true, beq_iff_eq, Bool.not_eq_true']
+  constructor
+  · intro w b hb hw
+    have hwm := i4 b hb w hw
+    unfold holds
+    rw [List.any_eq_true]
+    exact ⟨w, hwm, by simp [i1 w hwm]⟩
+  · intro b hb
+    by_cases h : b = dst
+    · exact Or.inl h
+    · refine Or.inr ⟨?_, ?_⟩
+      · rw [has_false_iff, gshard, if_neg (fun h' => h h'.symm)]; exact (hgone b hb).1
+      · rw [has_false_iff, gside]; exact (hgone b hb).2
+
+/-- the whole merge run: every recorded state is duplicate-free and exit status 0 implies the post-condition -/
+theorem merge_sat (d0 : Dir) (names : List String) (dst : String) (flt : Nat → Bool)
+    (hwf : d0.wf = true) (hnd : noDupVis d0 = true) (hnames : names.Nodup) (hdst : DstFresh d0 names dst) :
+    Sat Gd (Qmerge d0 names) flt (mergePlan false d0 names dst) 0 d0 := by
+  have h0 := sem_of_noDupVis d0 hwf hnd
+  have hG : ∀ d, K d0 d → Gd d := fun d k => K_G h0 k
+  have hQerr : ∀ d, Qmerge d0 names .err d := by intro d out h; cases h
+  unfold mergePlan
+  apply openAll_sat hQerr names _ d0 hnd
+  intro n1
+  apply readMetas_sat hQerr d0 names _ d0 hnd
+  intro n2
+  split
+  · rw [sat_done]; exact hQerr d0
+  · rename_i m hm
+    apply writeTmp_sat (I := K d0) (fun d o inj hb hk => K_benign inj hb hk) hG
+    · intro n' d' _; rw [sat_done]; exact hQerr d'
+    · intro n3 d1 hK1 htmp
+      apply removeAll_sat hG hQerr _ names d1 hK1
+      intro n4 d2 hK2 hgone hsame _
+      have htmp2 : d2.get ⟨.tmp, dst⟩ = some (.shard m) := by
+        rw [hsame _ (by intro b _; constructor <;> (intro h; cases h))]; exact htmp
+      rw [sat_op]
+      unfold sem
+      cases flt n4
+      · simp only [Bool.false_eq_true, if_false, htmp2, Option.getD_none]
+        obtain ⟨g, p⟩ := merge_final d0 names dst m h0 hnames hdst hm d2 hK2 hgone
+        refine ⟨g, ?_⟩
+        rw [if_neg (by simp), sat_done]
+        intro out hout; cases hout; exact p
+      · simp only [if_true]
+        refine ⟨hG _ hK2, ?_⟩
+        rw [if_pos (by simp), sat_done]; exact hQerr d2
+    · exact K_refl d0 hwf
+
+/-- **C35, merge never duplicates**: whatever fails and wherever the process is killed (every recorded state is the
+    directory a kill at that point leaves behind), no repository is visible twice -/
+theorem no_duplicate_visibility_merge (d0 : Dir) (names : List String) (dst : String) (flt : Nat → Bool)
+    (hwf : d0.wf = true) (hnd : noDupVis d0 = true) (hnames : names.Nodup) (hdst : DstFresh d0 names dst) :
+    ∀ s ∈ (run flt (mergePlan false d0 names dst) 0 d0).1, noDupVis s.dir = true :=
+  (merge_sat d0 names dst flt hwf hnd hnames hdst).1
+
+/-- **C35, merge success**: exit status 0 (with output `out`) implies that a loadable compound shard showing every live
+    input repository with all its documents is at `out` and that every input shard and sidecar is gone -/
+theorem merge_success_spec (d0 : Dir) (names : List String) (dst : String) (flt : Nat → Bool)
+    (hwf : d0.wf = true) (hnd : noDupVis d0 = true) (hnames : names.Nodup) (hdst : DstFresh d0 names dst)
+    (out : String) (hexit : (run flt (mergePlan false d0 names dst) 0 d0).2 = .ok out) :
+    mergePost d0 names out (lastDir (run flt (mergePlan false d0 names dst) 0 d0).1 d0) = true :=
+  (merge_sat d0 names dst flt hwf hnd hnames hdst).2 out hexit
 
 end ZoektModel.C35
